@@ -107,6 +107,15 @@ def run(R):
             for opts in ([], [b"-R"], [b"-f"], [b"--reject-format=context"], [b"--reject-format=unified"], [b"--verbose"], [b"-N"]):
                 jobs.append(dict(cut=R.cut_san, tree=box.Tree({b"f": ("f", b"a\nb\nc\n", 0o644), drv.PATCHNAME: ("f", pr, 0o644)}), argv=opts + [b"f", drv.PATCHNAME], sanitize=True, timeout=20))
                 meta.append((pr, opts + [b"f", drv.PATCHNAME]))
+    # extreme strip and fuzz counts against the names of every kind of header line (D98: 'strip - 1' for the names of git's extended header lines)
+    named = [b"diff --git a/d/f b/d/g\nsimilarity index 100%\nrename from d/f\nrename to d/g\n", b"diff --git a/d/f b/d/g\nsimilarity index 100%\ncopy from d/f\ncopy to d/g\n",
+             b"diff --git a/d/f b/d/f\nold mode 100644\nnew mode 100755\n", b"Index: d/f\n--- a/d/f\n+++ b/d/f\n@@ -1 +1 @@\n-a\n+A\n", b"*** a/d/f\n--- b/d/f\n***************\n*** 1 ****\n! a\n--- 1 ----\n! A\n"]
+    for pr in named:
+        for opt in (b"-p-2147483648", b"-p-2147483647", b"-p2147483647", b"-p2147483646", b"-p-1", b"-p0", b"-p1", b"--strip=-2147483648", b"-F-2147483648", b"-F2147483647"):
+            for more in ([], [b"-R"]):
+                jobs.append(dict(cut=R.cut_san, tree=box.Tree({b"d/f": ("f", b"a\n", 0o644), b"f": ("f", b"a\n", 0o644), drv.PATCHNAME: ("f", pr, 0o644)}),
+                                 argv=[opt] + more + [b"-f", b"-i", drv.PATCHNAME], sanitize=True, timeout=20))
+                meta.append((pr, [opt] + more + [b"-f", b"-i", drv.PATCHNAME]))
     # a '\\ No newline at end of file' line at every position of small hunks of every format, empty sides included
     BS = b"\\ No newline at end of file\n"
     bases = [b"--- f\n+++ f\n@@ -1,2 +1,2 @@\n a\n-b\n+B\n", b"--- f\n+++ f\n@@ -1 +0,0 @@\n-a\n", b"--- f\n+++ f\n@@ -0,0 +1 @@\n+a\n", b"--- f\n+++ f\n@@ -1,0 +1,0 @@\n",
